@@ -440,15 +440,17 @@ fn run_api_xnlri(l: &[Val]) -> Val {
     }
 }
 
-// kind 9: [9, 0, PrefixSid message] / [9, 1, TunnelEncap message]: a typed message of an attribute whose value is a TLV tree.
+// kind 9: [9, 0, PrefixSid message] / [9, 1, TunnelEncap message] / [9, 2, LsAttribute message]: a typed message of an attribute whose value is a TLV tree.
 // observation: [0] refused | [1, value bytes, the packet decoder reads the value, listed and added again: 0 same / 1 changed / 2 refused,
 //               the listing: the typed message, or [99] for the raw form]
 fn run_api_typed(l: &[Val]) -> Val {
     let which = l[1].int();
     let msg = if which == 0 {
         api::attribute::Attr::PrefixSid(prefix_sid_api_of(&l[2]))
-    } else {
+    } else if which == 1 {
         api::attribute::Attr::TunnelEncap(tunnel_encap_api_of(&l[2]))
+    } else {
+        api::attribute::Attr::Ls(ls_attr_api_of(&l[2]))
     };
     match attr_from_api(api::Attribute { attr: Some(msg) }) {
         Err(_) => Val::L(vec![i(0)]),
@@ -457,6 +459,12 @@ fn run_api_typed(l: &[Val]) -> Val {
             let dec = caught(|| {
                 if which == 0 {
                     Val::b(prefix_sid::PrefixSid::decode(&bytes).is_ok())
+                } else if which == 2 {
+                    let mut again = Vec::new();
+                    for t in ls::parse_ls_attr(&bytes) {
+                        t.encode(&mut again);
+                    }
+                    Val::b(again == bytes)
                 } else {
                     Val::b(packet::tunnel_encap::encode(&packet::tunnel_encap::decode(&bytes)) == bytes)
                 }
@@ -468,6 +476,7 @@ fn run_api_typed(l: &[Val]) -> Val {
             let listed = caught(|| match attr_to_api(&a).attr {
                 Some(api::attribute::Attr::PrefixSid(p)) => prefix_sid_api_val(&p),
                 Some(api::attribute::Attr::TunnelEncap(t)) => tunnel_encap_api_val(&t),
+                Some(api::attribute::Attr::Ls(x)) => ls_attr_api_val(&x),
                 _ => Val::L(vec![i(99)]),
             });
             Val::L(vec![i(1), bytes_digest_val(&bytes), dec, relist, listed, Val::n(a.code()), Val::n(a.flags())])
